@@ -8,7 +8,8 @@
 (*         isIPAllowed (auth.go), Server.isIPAllowed, ValidateAuthentication;*)
 (*         per request sent through HandleCall: reply status, whether a      *)
 (*         procedure handler was dispatched, backend calls, handle-table     *)
-(*         change; through acceptLoop: connection refused or served          *)
+(*         change; through acceptLoop: connection refused or served; the    *)
+(*         same list given at construction (New): filter answer, one MNT     *)
 (*  "c10"  squash mode, credential; AuthResult / AuthContext after           *)
 (*         ValidateAuthentication (parsed inside, and with a pre-parsed      *)
 (*         credential whose gid slice is shared with the caller: before and  *)
@@ -64,6 +65,9 @@ Bad09(mv) ==
     \cup If(~Agrees(hv, Cur.srv.allowed), "Server.isIPAllowed (connection-level filter) disagrees with the membership rule")
     \cup If(~Agrees(av, Cur.va.allowed), "ValidateAuthentication decides against the host and port rule")
     \cup UNION {CallBad(Cur.calls[i], av) : i \in 1..Len(Cur.calls)}
+    \cup If(Cur.ctor.run /\ ~Agrees(hv, Cur.ctor.srv),
+            "with the list given at construction, Server.isIPAllowed disagrees with the membership rule")
+    \cup (IF Cur.ctor.run THEN CallBad(Cur.ctor, av) ELSE {})
     \cup If(Cur.conn.run /\ ~Agrees(hv, ~Cur.conn.refused), "acceptLoop accepts or refuses a connection against the membership rule")
     \cup If(Cur.conn.run /\ ~Cur.conn.refused /\ Cur.conn.rpc # "NONE" /\ ~Agrees(av, Cur.conn.rpc = "ACCEPTED"),
             "a request on an accepted connection is decided against the host and port rule")
@@ -160,12 +164,17 @@ StepExplained(st, v) ==
 Bad10s ==
   LET mcs == ModeClasses(Cur.mode, Cur.cfg_ok)
       StepCred(st) == [flavor |-> st.cred.flavor, body |-> st.cred.body, uid |-> st.cred.uid, gid |-> st.cred.gid, aux |-> st.cred.aux]
-      badAllow == \E k \in 1..Len(Cur.steps) : \A mc \in mcs : ~Agrees(AuthVerdict(mc, StepCred(Cur.steps[k])).allow, Cur.steps[k].allowed)
-      badWho   == \E k \in 1..Len(Cur.steps) : \A mc \in mcs : ~StepExplained(Cur.steps[k], AuthVerdict(mc, StepCred(Cur.steps[k])))
+      Reqs     == {k \in 1..Len(Cur.steps) : Cur.steps[k].kind = "req"}
+      \* the mode the export was created with governs every request, also after a run-time update that names no mode
+      badAllow == \E k \in Reqs : \A mc \in mcs : ~Agrees(AuthVerdict(mc, StepCred(Cur.steps[k])).allow, Cur.steps[k].allowed)
+      badWho   == \E k \in Reqs : \A mc \in mcs : ~StepExplained(Cur.steps[k], AuthVerdict(mc, StepCred(Cur.steps[k])))
+      updated  == \E k \in 1..Len(Cur.steps) : Cur.steps[k].kind = "update"
   IN   If(badAllow, "a request on a connection is admitted or denied against its own credential")
-    \cup If(~badAllow /\ badWho, "a request on a connection is served under an identity other than its own squashed credential")
+    \cup If(~badAllow /\ badWho /\ ~updated, "a request on a connection is served under an identity other than its own squashed credential")
+    \cup If(~badAllow /\ badWho /\ updated,
+            "a request on a connection is served under an identity other than its own credential squashed by the mode the export was created with (run-time updates naming no mode in between)")
 Drift10s ==
-  If(\E k \in 1..Len(Cur.steps) :
+  If(\E k \in {j \in 1..Len(Cur.steps) : Cur.steps[j].kind = "req"} :
         LET c == Cur.steps[k].cred
             v == AuthVerdict(ModeClass(Lower(Cur.mode)), [flavor |-> c.flavor, body |-> c.body, uid |-> c.uid, gid |-> c.gid, aux |-> c.aux])
         IN  Cur.steps[k].exp.allow # v.allow \/ Cur.steps[k].exp.uid # v.uid \/ Cur.steps[k].exp.gid # v.gid \/ Cur.steps[k].exp.aux # v.aux
@@ -212,7 +221,7 @@ Init == /\ l = 1 /\ bad = {} /\ dev = {} /\ drift = {}
         /\ stats = [lines |-> 0, c09 |-> 0, c09_yes |-> 0, c09_no |-> 0, c09_either |-> 0, c09_calls |-> 0, c09_denied |-> 0,
                     c09_conn |-> 0, c10 |-> 0, c10_denied |-> 0, c10_changed |-> 0, c10_probed |-> 0,
                     c12 |-> 0, c12_decisions |-> 0, other |-> 0,
-                    c09s |-> 0, c09s_steps |-> 0, c09s_denied |-> 0, c10s |-> 0, c10s_steps |-> 0]
+                    c09s |-> 0, c09s_steps |-> 0, c09s_denied |-> 0, c10s |-> 0, c10s_steps |-> 0, c10s_updates |-> 0]
 
 Step09 ==
   /\ Cur.ev = "c09"
@@ -256,7 +265,8 @@ Step10s ==
   /\ Cur.ev = "c10s"
   /\ bad' = bad \cup Tag(Bad10s)
   /\ drift' = drift \cup Tag(Drift10s)
-  /\ stats' = [stats EXCEPT !.c10s = @ + 1, !.c10s_steps = @ + Len(Cur.steps)]
+  /\ stats' = [stats EXCEPT !.c10s = @ + 1, !.c10s_steps = @ + Len(Cur.steps),
+                            !.c10s_updates = @ + Cardinality({k \in 1..Len(Cur.steps) : Cur.steps[k].kind = "update"})]
 
 StepOther ==
   /\ Cur.ev \notin {"c09", "c10", "c12", "c09s", "c10s"}
